@@ -1,2 +1,247 @@
-(* placeholder, theorems follow *)
-From Verif Require Import Css.VarSubst.
+(* Properties/C08.v -- "Declarations mean the same however they are spelled;
+   bad ones are dropped alone".  Statements only; proofs in Css/DeclProofs.v
+   and Css/VarSubstProofs.v.  The leaf validators (`validate`), ParseColor
+   (`pc`) and the non-modelled shorthand expanders (`oe`) are universally
+   quantified: every theorem holds whatever they compute. *)
+From Coq Require Import List NArith ZArith QArith Bool.
+From Verif Require Import Base.GoSem Css.DeclTok Css.Decl Css.VarSubst Css.DeclSpec Css.DeclProofs Css.VarSubstProofs.
+Import ListNotations.
+Open Scope nat_scope.
+
+(* ---- an unknown property or invalid value discards that declaration only ---- *)
+
+Theorem C08_bad_declarations_dropped_alone :
+  forall known validate pc oe (ds : list raw),
+    preprocess known validate pc oe ds = preprocess known validate pc oe (filter (valid known validate pc oe) ds)
+    /\ preprocess known validate pc oe ds = flat_map (preprocess_one known validate pc oe) ds.
+Proof. exact bad_declarations_dropped_alone. Qed.
+Print Assumptions C08_bad_declarations_dropped_alone.
+
+Theorem C08_invalid_declaration_irrelevant :
+  forall known validate pc oe l1 d l2,
+    valid known validate pc oe d = false ->
+    preprocess known validate pc oe (l1 ++ d :: l2) = preprocess known validate pc oe (l1 ++ l2).
+Proof. exact invalid_declaration_irrelevant. Qed.
+Print Assumptions C08_invalid_declaration_irrelevant.
+
+Theorem C08_declaration_effect_local :
+  forall known validate pc oe l1 d l2,
+    preprocess known validate pc oe (l1 ++ d :: l2)
+    = preprocess known validate pc oe l1 ++ preprocess_one known validate pc oe d ++ preprocess known validate pc oe l2.
+Proof. exact declaration_effect_local. Qed.
+Print Assumptions C08_declaration_effect_local.
+
+(* ---- spelling ---- *)
+
+(* property names are ASCII case-insensitive (custom properties excepted) *)
+Theorem C08_name_case_insensitive :
+  forall known validate pc oe n n' v i,
+    is_custom_name n = false -> is_custom_name n' = false -> same_word n n' ->
+    preprocess_one known validate pc oe (RDecl n v i) = preprocess_one known validate pc oe (RDecl n' v i).
+Proof. exact name_case_insensitive. Qed.
+Print Assumptions C08_name_case_insensitive.
+
+(* comments and whitespace between the component values of a declaration are irrelevant *)
+Theorem C08_whitespace_comment_irrelevant :
+  forall known validate pc oe n v v' i,
+    ws_variant v v' ->
+    preprocess_one known validate pc oe (RDecl n v i) = preprocess_one known validate pc oe (RDecl n v' i).
+Proof. exact whitespace_comment_irrelevant. Qed.
+Print Assumptions C08_whitespace_comment_irrelevant.
+
+(* token level: a spelling variant (keyword / unit / function-name case,
+   comments and whitespace at any depth) has the same projection ... *)
+Theorem C08_spelling_variant_projection :
+  forall ts ts', sv_toks ts ts' -> proj_toks ts = proj_toks ts'.
+Proof. exact spelling_variant_projection. Qed.
+Print Assumptions C08_spelling_variant_projection.
+
+(* ... and the modelled validators read only the projection *)
+Theorem C08_modelled_validators_read_projection :
+  forall pc, (forall t, pc (proj_tok t) = pc t) ->
+  forall n ts, Forall (fun t => is_trivia t = false) ts ->
+    validate_modelled pc n (proj_toks ts) = validate_modelled pc n ts.
+Proof. exact modelled_validators_read_projection. Qed.
+Print Assumptions C08_modelled_validators_read_projection.
+
+(* full statement (pipeline level, every validator reading only the projection): not proved;
+   the four theorems above are its proved parts (`_partial`), the rest is the metamorphic test *)
+Definition C08_spelling_irrelevant_statement : Prop := spelling_irrelevant_statement.
+
+(* ---- shorthands ---- *)
+
+Theorem C08_four_sides_spec :
+  forall known validate name tokens t r b l nt nr nb nl,
+    existsb has_var tokens = false -> mixed_default tokens = false ->
+    four_sides_assign tokens t r b l -> four_names name = [nt; nr; nb; nl] ->
+    expand_four_sides known validate name tokens
+    = seq_opt [validate_non_shorthand known validate nt [t] true; validate_non_shorthand known validate nr [r] true;
+               validate_non_shorthand known validate nb [b] true; validate_non_shorthand known validate nl [l] true].
+Proof. exact four_sides_spec. Qed.
+Print Assumptions C08_four_sides_spec.
+
+Theorem C08_four_sides_arity :
+  forall known validate name tokens,
+    existsb has_var tokens = false -> (length tokens = 0 \/ 4 < length tokens) ->
+    expand_four_sides known validate name tokens = None.
+Proof. exact four_sides_arity. Qed.
+Print Assumptions C08_four_sides_arity.
+
+Theorem C08_four_sides_mixed_default :
+  forall known validate name tokens,
+    existsb has_var tokens = false -> mixed_default tokens = true ->
+    expand_four_sides known validate name tokens = None.
+Proof. exact four_sides_mixed_default. Qed.
+Print Assumptions C08_four_sides_mixed_default.
+
+Theorem C08_four_sides_pending :
+  forall known validate name tokens,
+    existsb has_var tokens = true ->
+    expand_four_sides known validate name tokens
+    = Some (map (fun n => mkNP n (VRaw tokens) name) (four_names name)).
+Proof. exact four_sides_pending. Qed.
+Print Assumptions C08_four_sides_pending.
+
+Theorem C08_generic_expander_resets :
+  forall known validate names wrapped sh tokens props,
+    is_default_kw (get_single_keyword tokens) = false -> existsb has_var tokens = false ->
+    generic_expander known validate names wrapped sh tokens = Some props ->
+    exists result,
+      wrapped sh tokens = Some result
+      /\ NoDup (map fst result)
+      /\ (forall n x, assoc n result = Some x -> In n names)
+      /\ Forall2 (fun n p => match assoc n result with
+                             | Some toks => validate_non_shorthand known validate n toks true = Some p
+                             | None => p = mkNP n VInitial []
+                             end) names props.
+Proof. exact generic_expander_resets. Qed.
+Print Assumptions C08_generic_expander_resets.
+
+Theorem C08_generic_expander_default :
+  forall known validate names wrapped sh tokens,
+    is_default_kw (get_single_keyword tokens) = true ->
+    generic_expander known validate names wrapped sh tokens
+    = Some (map (fun n => mkNP n (default_value (get_single_keyword tokens)) []) names).
+Proof. exact generic_expander_default. Qed.
+Print Assumptions C08_generic_expander_default.
+
+Theorem C08_generic_expander_duplicate :
+  forall known validate names wrapped sh tokens result,
+    is_default_kw (get_single_keyword tokens) = false -> existsb has_var tokens = false ->
+    wrapped sh tokens = Some result -> ~ NoDup (map fst result) ->
+    generic_expander known validate names wrapped sh tokens = None.
+Proof. exact generic_expander_duplicate. Qed.
+Print Assumptions C08_generic_expander_duplicate.
+
+(* ---- var() ---- *)
+
+(* the function of the pinned tree (before fbf7bcf) does not terminate on a
+   self-referencing custom property, nor on var() two function levels deep:
+   no fuel suffices (on Go: fatal stack overflow).  Witnesses replayed in
+   corpus/C08/regress.tsv. *)
+Theorem C08_resolve_var_old_refuted :
+  (forall fuel, resolve_var_old fuel self_cycle_env (tvar Lits.n_a) = OutOfFuel)
+  /\ (forall fuel, resolve_var_old fuel nested_env nested_tok = OutOfFuel).
+Proof. split; [exact resolve_var_old_self_cycle|exact resolve_var_old_nested]. Qed.
+Print Assumptions C08_resolve_var_old_refuted.
+
+(* the repaired function terminates without reaching a panic site for every
+   environment, cyclic ones included: fuel = depth + #custom properties x (1 + max depth) *)
+Theorem C08_resolve_var_total :
+  forall e t fuel, fuel_bound e t <= fuel -> exists r, resolve_var fuel e [] t = Ok r.
+Proof. exact resolve_var_total. Qed.
+Print Assumptions C08_resolve_var_total.
+
+(* whatever it returns is the token substitution of the specification *)
+Theorem C08_resolve_var_sound :
+  forall e fuel visited t r, resolve_var fuel e visited t = Ok r ->
+  forall out, toks_of r t = Some out -> Subst e t out.
+Proof. exact resolve_var_sound. Qed.
+Print Assumptions C08_resolve_var_sound.
+
+(* acyclic environments: resolveVar = substitution with fallback, never "cyclic" *)
+Theorem C08_resolve_var_subst :
+  forall e t, acyclic e ->
+  exists out, (resolve_var (fuel_bound e t) e [] t = Ok (RToks out)
+               \/ (resolve_var (fuel_bound e t) e [] t = Ok RNil /\ out = [t]))
+              /\ Subst e t out.
+Proof. exact resolve_var_subst. Qed.
+Print Assumptions C08_resolve_var_subst.
+
+(* a cyclic reference yields the guaranteed-invalid result ... *)
+Theorem C08_cyclic_reference_is_invalid :
+  forall known validate pc oe fuel e key sh raw,
+    resolve_tokens fuel e raw = Ok None ->
+    pending_value known validate pc oe fuel e key sh raw = Ok None.
+Proof. exact cyclic_reference_is_invalid. Qed.
+Print Assumptions C08_cyclic_reference_is_invalid.
+
+(* ... and an invalid pending value computes to inherited / initial *)
+Theorem C08_pending_invalid_falls_back :
+  forall known validate pc oe inherited initial_value parent_value fuel e key sh raw,
+    pending_value known validate pc oe fuel e key sh raw = Ok None ->
+    cascade_value known validate pc oe inherited initial_value parent_value fuel e key (Some (VRaw raw, sh))
+    = Ok (finalize initial_value parent_value key
+                   (if inherited key then parent_value key else initial_value key)).
+Proof. exact pending_invalid_falls_back. Qed.
+Print Assumptions C08_pending_invalid_falls_back.
+
+(* a valid pending value is the typed value of the substituted tokens (as a
+   longhand, or as the longhand's part of the substituted shorthand) *)
+Theorem C08_pending_is_substitution :
+  forall known validate pc oe fuel e key sh raw d,
+    pending_value known validate pc oe fuel e key sh raw = Ok (Some d) ->
+    exists solved, SubstL e raw solved /\ solved <> [] /\
+      match sh with
+      | [] => option_map np_value (validate_non_shorthand known validate key solved false) = Some d
+      | _ => expand_validate_pending known validate pc oe key sh solved = Some d
+      end.
+Proof. exact pending_is_substitution. Qed.
+Print Assumptions C08_pending_is_substitution.
+
+Theorem C08_cascade_value_total :
+  forall known validate pc oe inherited initial_value parent_value e key casc fuel,
+    (forall raw sh t, casc = Some (VRaw raw, sh) -> In t raw -> fuel_bound e t <= fuel) ->
+    exists v, cascade_value known validate pc oe inherited initial_value parent_value fuel e key casc = Ok v.
+Proof. exact cascade_value_total. Qed.
+Print Assumptions C08_cascade_value_total.
+
+(* ---- the hypotheses are inhabited / the definitions compute ---- *)
+
+Module Examples.
+  Import String.
+  Local Open Scope string_scope.
+  Definition px (n : Q) : tok := TDim n true (s "px").
+  Definition pc0 : tok -> color := fun _ => CNone.
+  Notation pre := (preprocess_modelled pc0).
+
+  (* margin: 1px 2px 3px  =>  top 1, right 2, bottom 3, left 2; the unknown
+     and the invalid neighbours are dropped alone *)
+  Example ex_block :
+    map (fun d => (od_name d, od_value d))
+        (pre [RDecl (s "colour") [TIdent (s "red")] false;
+              RDecl (s "MARGIN") [px 1; TWs; TComment; px 2; TWs; px 3] false;
+              RDecl (s "padding") [px (-1)] false])
+    = [(s "margin-top", VDim 1 7); (s "margin-right", VDim 2 7); (s "margin-bottom", VDim 3 7); (s "margin-left", VDim 2 7)].
+  Proof. vm_compute. reflexivity. Qed.
+
+  Example ex_names : four_names (s "border-color")
+                     = [s "border-top-color"; s "border-right-color"; s "border-bottom-color"; s "border-left-color"]
+                     /\ four_names (s "margin") = [s "margin-top"; s "margin-right"; s "margin-bottom"; s "margin-left"].
+  Proof. split; vm_compute; reflexivity. Qed.
+
+  (* a 2-cycle is reported, a chain is substituted *)
+  Definition v (n : string) : tok := TFunc (s "var") [TIdent (s n)].
+  Example ex_cycle : resolve_var 50 [(s "--a", [v "--b"]); (s "--b", [v "--a"])] [] (v "--a") = Ok RCyclic.
+  Proof. vm_compute. reflexivity. Qed.
+  Example ex_chain : resolve_var 50 [(s "--a", [v "--b"; px 2]); (s "--b", [px 1])] [] (v "--a") = Ok (RToks [px 1; px 2]).
+  Proof. vm_compute. reflexivity. Qed.
+  Example ex_acyclic : acyclic [(s "--a", [v "--b"; px 2]); (s "--b", [px 1])].
+  Proof.
+    exists (fun n => if str_eqb n (s "--a") then 1 else 0).
+    intros n m H. unfold lookup in H. cbn [assoc] in H.
+    destruct (str_eqb (s "--a") n) eqn:E1.
+    - apply str_eqb_eq in E1. subst n. vm_compute in H. destruct H as [<-|[]]. vm_compute. auto.
+    - destruct (str_eqb (s "--b") n) eqn:E2; vm_compute in H; contradiction.
+  Qed.
+End Examples.
